@@ -7,12 +7,13 @@ raises `OutOfSubset` (verdict: undecided).
 """
 
 import ast
+import time as _time
 import hashlib
 import os
 
 import z3
 
-from .ctx import CTX, PathEnd, OutOfSubset
+from .ctx import CTX, PathEnd, OutOfSubset, TimeBudget
 from .sym import (SInt, SBool, SStr, SRef, SBV, SReal, PyRaise, mk_int, mk_bool, mk_str, _zint, _zbool, zstr,
                   is_sym, ite)
 from .values import (Opaque, AbstractSeq, OneShotIter, EnumMember, FuncVal, BoundMethod, PropertyVal, HostFn, HostModule, ClassVal, VObj,
@@ -1070,6 +1071,13 @@ class Interp:
             self.exec_stmt(s, scope)
 
     def exec_stmt(self, s, scope):
+        dl = getattr(CTX, "deadline", None)
+        if dl is not None:
+            CTX.ticks = getattr(CTX, "ticks", 0) + 1
+            if CTX.ticks % 256 == 0 and _time.time() > dl:
+                # the harness has used up its wall-clock budget on this code (a loop the interpreter follows for very long, an
+                # explosion of paths): undecided, never a hanging run
+                raise TimeBudget("time budget of the harness used up")
         m = getattr(self, "st_" + type(s).__name__, None)
         if m is None:
             raise OutOfSubset("statement %s (line %d)" % (type(s).__name__, s.lineno))
